@@ -204,3 +204,21 @@ PROPS["C08"] = dict(
     assumptions=["default transformer configuration (no custom `configurations:`)"],
     design_ref="DESIGN.md §5 C08",
 )
+
+PROPS["C10"] = dict(
+    title="Directives change exactly what they select",
+    modules=["Kust.Props.C10"],
+    theorems=["Kust.C10.image_match_exact", "Kust.C10.rest_starts_tag_or_digest", "Kust.C10.match_has_prefix", "Kust.C10.unmatched_untouched",
+              "Kust.C10.stripPrefix_iff", "Kust.C10.Witness.old_regex_name_matched_other_image"],
+    components=["image.update", "image.split"],
+    oracle=True,
+    n_corr={"quick": 4000, "thorough": 40000}, n_oracle={"quick": 1200, "thorough": 15000},
+    technique="Lean 4 proof (image reference matching is literal-prefix + tag/digest grammar: exact characterisation, never a longer or shorter name) + Go/Lean correspondence of the imagetag filter and Split + near-miss selection oracle for patch targets, images, replicas and replacements on whole builds",
+    level_text="Theorems (all strings): an images entry matches a reference iff it is the entry's name followed by an optional :tag and @sha256:digest; the character after "
+               "the name is ':' or '@' (never a longer name), the name is a literal prefix (never shorter), unmatched images are untouched. Patch-target selectors "
+               "(Go regexp, third-party), replicas and replacement targets are decided by the oracle with an independent matcher over near-miss families; the "
+               "unanchored [k=v] selector of replacement targets is the recorded finding C10-K1.",
+    level_note=COMMON_NOTE + "Go regexp (user-supplied selector patterns) is not modelled: anchoring is checked by the oracle only.",
+    assumptions=["fixed-shape image regexp hand-modelled as a string function (validated by correspondence)"],
+    design_ref="DESIGN.md §5 C10",
+)
